@@ -11,6 +11,7 @@ Definition units := list N.
 Definition sz_lut : list N := [1;1;1;1;1;1;1;1; 0;0;0;0; 2;2; 3; 4].
 Definition mask_lut : list N := [0x7f; 0xff; 0x3f; 0x1f; 0x0f].
 Definition limit : N := 0x110000.
+Definition is_surrogate (u : N) : bool := (0xD800 <=? u) && (u <? 0xE000).
 
 Definition is_cont (b : N) : bool := N.shiftr b 6 =? 2.
 Definition seq_sz (b : N) : N := nth (N.to_nat (N.shiftr b 4)) sz_lut 0.
@@ -47,7 +48,7 @@ Definition get8 (m : units) : option got :=
         match cont_steps (thresholds sz) (N.land b0 (lead_mask sz)) r 1 false with
         | None => None
         | Some (u, l, toolong) =>
-            if negb (N.of_nat l =? sz) || toolong || (limit <=? u) then Some (mkgot 0xFFFD l false)
+            if negb (N.of_nat l =? sz) || toolong || (limit <=? u) || is_surrogate u then Some (mkgot 0xFFFD l false)
             else Some (mkgot u l true)
         end
   end.
@@ -106,7 +107,7 @@ Definition put16 (u : N) : units :=
 Definition get32 (m : units) : option got :=
   match m with
   | [] => None
-  | c :: _ => if c <? limit then Some (mkgot c 1 true) else Some (mkgot 0xFFFD 1 false)
+  | c :: _ => if (c <? limit) && negb (is_surrogate c) then Some (mkgot c 1 true) else Some (mkgot 0xFFFD 1 false)
   end.
 Definition validate32 (m : units) : bool := true.        (* s <= e *)
 Definition put32 (u : N) : units := [u].
